@@ -586,6 +586,8 @@ class Interp(object):
     def contains(self, container, item):
         if isinstance(container, (list, tuple, str, dict)) and isinstance(item, (str, int)):
             return item in container
+        if isinstance(container, AList) and not container.generic and isinstance(item, (str, int)):
+            return item in container.items
         if isinstance(container, ASeq):
             return ABoolTerm("in", item, ASeq(container.kind, self.canon(container.pieces)))
         if isinstance(container, AMap):
@@ -688,6 +690,7 @@ class Interp(object):
             self.call_stack.pop()
 
     def get_attr_of_obj(self, obj: AObj, name: str, node=None, after: Optional[ClassInfo] = None):
+        self.path.effects.append(("getattr", obj.name, name))
         if after is None and name in obj.attrs:
             return obj.attrs[name]
         owner, raw = self.p.class_attr_def(obj.cls, name, after=after)
@@ -894,7 +897,7 @@ class Frame(object):
             return
         if isinstance(it, AList):
             items = list(it.items)
-        elif isinstance(it, (list, tuple)):
+        elif isinstance(it, (list, tuple, str)):
             items = list(it)
         elif isinstance(it, dict):
             items = list(it.keys())
@@ -1115,6 +1118,9 @@ class Frame(object):
             return I.get_attr_of_obj(base, a, node)
         if isinstance(base, SuperProxy):
             if isinstance(base.obj, AObj):
+                owner, raw = I.p.class_attr_def(base.obj.cls, a, after=base.after)
+                if owner is None:
+                    return BoundMethod("lib-super", base.obj, a)
                 return I.get_attr_of_obj(base.obj, a, node, after=base.after)
             if isinstance(base.obj, ARec):
                 return BoundMethod("lib-super", base.obj, a)
@@ -1216,6 +1222,9 @@ class Frame(object):
             raise RaiseSig(AExc("KeyError", [idx], {}))
         if isinstance(base, AMap):
             return map_getitem(self, base, idx)
+        if isinstance(base, ACollection) and isinstance(idx, (int, Aff)):
+            # one particular element of the input collection
+            return base.make_elem()
         if isinstance(base, AListMap):
             if isinstance(idx, int) and idx == 0 and len(base.elems) >= 1:
                 return Term("first", Term(repr(base)))
@@ -1549,6 +1558,10 @@ class Frame(object):
         return obj
 
 
+class DCDict(dict):
+    """a dict obtained through copy.deepcopy"""
+
+
 class AFormat(object):
     """fmt.format(*args) with symbolic integer arguments"""
 
@@ -1800,7 +1813,12 @@ def lib_call_method(fr: Frame, bm: BoundMethod, args, kwargs, node):
                 return AFormat(t, list(args), dict(kwargs))
             return Term("format", Term(repr(t)), *[_t(a) for a in args])
         if name == "join":
-            return Term("join", Term(repr(t)), _t(args[0]))
+            a0 = args[0]
+            if isinstance(a0, AList) and not a0.generic and all(isinstance(x, str) for x in a0.items):
+                return t.join(a0.items)
+            if isinstance(a0, (list, tuple)) and all(isinstance(x, str) for x in a0):
+                return t.join(a0)
+            return Term("join", Term(repr(t)), _t(a0))
         if name in ("lower", "upper") and not args:
             return getattr(t, name)()
     if bm.kind == "lib-super":
@@ -1810,8 +1828,15 @@ def lib_call_method(fr: Frame, bm: BoundMethod, args, kwargs, node):
     fr.unsupported(node, "method %s of %r" % (name, t))
 
 
-def lib_super_call(fr: Frame, rec: ARec, name: str, args, kwargs, node):
-    fr.unsupported(node, "super().%s on a record" % name)
+def lib_super_call(fr: Frame, rec, name: str, args, kwargs, node):
+    hook = fr.I.hooks.get("lib_super")
+    if hook is not None:
+        r = hook(fr, rec, name, args, kwargs, node)
+        if r is not NotImplemented:
+            return r
+    if name == "__new__":
+        return rec
+    fr.unsupported(node, "super().%s on a library base" % name)
 
 
 def map_getitem(fr: Frame, m: AMap, key):
@@ -1978,6 +2003,9 @@ def lib_call(fr: Frame, dotted: str, args, kwargs, node):
         if args and isinstance(args[0], ASeq):
             return ASeq("Seq", args[0].pieces, args[0].upper)
     if dotted == "Bio.SeqRecord.SeqRecord":
+        if args and isinstance(args[0], ARec):
+            # Bio 1.88: "seq argument should be a Seq object"
+            raise RaiseSig(AExc("TypeError", ["seq argument should be a Seq object"], {}))
         if args and isinstance(args[0], ASeq):
             out = ARec(False, args[0].pieces, Term("fresh-record"), ctor="SeqRecord")
             names = ["id", "name", "description", "dbxrefs", "features", "annotations", "letter_annotations"]
@@ -2000,7 +2028,12 @@ def lib_call(fr: Frame, dotted: str, args, kwargs, node):
     if dotted == "re.compile" and args and isinstance(args[0], str):
         return AStruct("regex", pattern=args[0])
     if dotted == "copy.deepcopy":
-        return Term("deepcopy", _t(args[0])) if not isinstance(args[0], (ASeq,)) else args[0]
+        v = args[0]
+        if isinstance(v, dict):
+            return DCDict(v)
+        if isinstance(v, ASeq):
+            return v
+        return Term("deepcopy", _t(v))
     fr.unsupported(node, "library call %s" % dotted)
 
 
